@@ -75,7 +75,8 @@ def check_create_arcs(chk, rep, repo):
     d_r = ("idx", sc.D, r)
     # argument validation (`if k < 1: raise ...`) dominates the whole body: those complements are not conditions of the steps
     _raises = [e for e in w.events if e.kind == "raise"]
-    own = lambda gs: tuple((g, pol) for g, pol in gs if not any((g, not pol) in x.guards for x in _raises))
+    from ..rules_premise import validation_guard
+    own = lambda gs: tuple((g, pol) for g, pol in gs if not validation_guard(_raises, g, pol))
     body = [e for e in w.events if ro.lid in e.loops and e.kind in ("store", "call") and e.name not in ("builtin.range", "<inline>")]
     for e in body:
         if e.kind == "call" and e.name in ("builtin.int",):
